@@ -213,6 +213,9 @@ class Theory:
     def setitem(self, st, fr, cont, key, v):
         self._no("item assignment")
 
+    def raise_opaque(self, st, fr, v):
+        self._no("raise of an opaque object")
+
     def empty_list(self, st, fr, hint):
         return [(st, SeqV(0, [fresh("lst", z3.ArraySort(I, I))], IntL(), mutable=True))]
 
@@ -365,6 +368,8 @@ class Theory:
         special = self.special_iter(st, fr, node, ordinal, d)
         if special is not None:
             return special
+        if isinstance(d, OpaqueCollV):
+            return self._scan_loop(st, fr, node, d)
         it = self.iter_of(st, fr, itv, node)
         if it is None:
             raise Unsupported(f"iteration over {type(d).__name__}")
@@ -372,6 +377,36 @@ class Theory:
 
     def special_iter(self, st, fr, node, ordinal, d):
         return None
+
+    def _scan_loop(self, st: St, fr: Frame, node, d: "OpaqueCollV") -> List[Tuple[St, Exit]]:
+        """`for x in <opaque finite collection>: <body>` where the body either changes nothing or leaves the loop:
+        the loop ends normally with nothing changed, or leaves at some element exactly as the body does for an
+        arbitrary element (no invariant needed).  Anything else is outside the subset."""
+        ip = self.ip
+        probe = st.fork()
+        elem = d.fresh_elem(probe)
+        before_sh = dict(probe.sh)
+        before_loc = dict(probe.loc)
+        out: List[Tuple[St, Exit]] = []
+        done = st.fork()
+        done.tags.append("scan:no-element-leaves")
+        out.append((done, NORMAL))
+        for s1, ex1 in self._exits_assign(probe, fr, node.target, elem):
+            if ex1.kind != Exit.NORMAL:
+                raise Unsupported("scan loop: target assignment")
+            tname = node.target.id if isinstance(node.target, ast.Name) else None
+            for s2, ex in ip.block(s1, fr, node.body):
+                if ex.kind in (Exit.NORMAL, Exit.CONTINUE):
+                    for k in before_sh:
+                        if not same_value(before_sh[k], s2.sh[k]):
+                            raise Unsupported("scan loop: the body changes shared state")
+                    for k, v0 in before_loc.items():
+                        if k != tname and (k not in s2.loc or not (s2.loc[k] is v0 or same_value(v0, s2.loc[k]))):
+                            raise Unsupported("scan loop: the body changes a local")
+                    continue
+                s2.tags.append("scan:element-leaves")
+                out.append((s2, NORMAL if ex.kind == Exit.BREAK else ex))
+        return out
 
     def _exits_assign(self, st, fr, target, v):
         return self.ip.assign(st, fr, target, v)
@@ -515,6 +550,19 @@ class Theory:
             ip.collect = saved_collect
             fr.loop_no, fr.await_no = saved_loop_no, saved_await
         return sorted(changed)
+
+
+class OpaqueCollV(V):
+    """a finite collection of opaque objects that can only be scanned (e.g. the list returned by gather)"""
+
+    def __init__(self, desc: str, elem_fact=None):
+        self.desc, self.elem_fact = desc, elem_fact
+
+    def fresh_elem(self, st: St) -> V:
+        r = fresh("scanned", Ref)
+        if self.elem_fact is not None:
+            st.assume(self.elem_fact(r))
+        return RefV(r)
 
 
 class IterV(V):
